@@ -69,6 +69,7 @@ type vwOpts struct {
 	evOlder        bool // install:n:older-*
 	evFence        bool // install:L:fence / unfence
 	evEpoch        bool // install:n:epoch
+	epochAnyNode   bool // next-epoch installs at every node (otherwise at the current control-plane leader only)
 	evTrailing     bool // deliver:<trailing write>
 	evRepair       bool // repair:L>F follower gap repair
 	evCrashReplace bool // crash before / after a local recovery page (Replace) is an env answer
@@ -777,7 +778,9 @@ func (w *vw) Events() []string {
 	}
 	if w.o.evSame {
 		for _, n := range w.nodes {
-			if n.issued != nil {
+			// re-installing the authority a node is already writable under only returns
+			// the cached frontier; that no-op is explored by the C04 entry only.
+			if n.issued != nil && (w.o.oC04 || !n.writable || len(n.hist) == 0 || n.hist[len(n.hist)-1] != n.issued.ID) {
 				evs = append(evs, fmt.Sprintf("install:%d:same", n.id))
 			}
 		}
@@ -795,7 +798,9 @@ func (w *vw) Events() []string {
 		}
 		if w.o.evEpoch {
 			for _, n := range w.nodes {
-				evs = append(evs, fmt.Sprintf("install:%d:epoch", n.id))
+				if w.o.epochAnyNode || n.id == w.cp.leader {
+					evs = append(evs, fmt.Sprintf("install:%d:epoch", n.id))
+				}
 			}
 		}
 	}
